@@ -203,6 +203,10 @@ class FieldData:
                "cannot be renamed to {}\n".format(value)+
                "Line or ID not unique\n"+
                "Matching previous line: {}".format(str(previous)))
+         if gfapy.is_placeholder(value) and self.all_references:
+           raise gfapy.RuntimeError(
+             "Line: {}\n".format(str(self))+
+             "The identifier cannot be removed, as other lines refer to it")
          if value is not None:
            # before the line is unregistered: a refused name changes nothing
            # (the line is registered under the name, whatever the vlevel is)
